@@ -365,6 +365,8 @@ func c04Script(r *rand.Rand, id int) *sScript {
 	newRoot := fmt.Sprintf("r%d", id)
 	g.add("new-root", sOp{Kind: "ep", Node: newRoot, Parent: "root", Points: []sPoint{g.tombPoint(0), g.typePoint("device")}})
 	g.add("node-points", sOp{Kind: "np", Node: newRoot, Points: g.batch(newRoot, 2)})
+	// an edge point on the edge of the former root: the instance root stays the new node, on disk as in memory
+	g.add("edge-points-old-root", sOp{Kind: "ep", Node: storeRootID, Parent: "root", Points: []sPoint{{Type: "sortOrder", Time: g.tick(), VBits: math.Float64bits(5)}}})
 	g.add("node-points", sOp{Kind: "np", Node: "n1", Points: g.batch("n1", 2)})
 	s := &sScript{ID: id, Kind: "c04", Ops: g.ops}
 	s.Nodes = append(s.Nodes, g.nodes[1:]...)
